@@ -86,6 +86,9 @@ Structured == <<
     <<176, 216, 64>>, <<255, 127, 1>>, <<170, 170, 170>>, <<85, 85, 85, 85>> >>
 
 TotalInputs == Short \o Structured
+\* thorough tier: every string of length 3 over the same five bytes as well
+Short3 == [i \in 1..125 |-> <<Small[((i - 1) \div 25) + 1], Small[(((i - 1) \div 5) % 5) + 1], Small[((i - 1) % 5) + 1]>>]
+TotalInputsWide == Short \o Short3 \o Structured
 
 C(k) == [op |-> k]
 TotalCalls == <<
@@ -96,6 +99,11 @@ TotalCalls == <<
     [op |-> "list", of |-> "bytes"],
     [op |-> "top", of |-> "bool"], [op |-> "top", of |-> "u8"], [op |-> "top", of |-> "word"], [op |-> "top", of |-> "int"],
     [op |-> "top", of |-> "char"], [op |-> "top", of |-> "bytes"], [op |-> "top", of |-> "utf8"] >>
+
+\* thorough tier, sequences of three calls
+CallsCore == <<
+    C("bool"), [op |-> "bits", n |-> 3], C("u8"), C("word"), C("int"), C("char"), C("bytes"), C("utf8"), C("string"),
+    C("filler"), [op |-> "list", of |-> "bool"], [op |-> "list", of |-> "word"] >>
 
 \* a top call or an unconstrained outcome ends the sequence (nothing after it is determined)
 MCMoreCalls(h) ==
